@@ -1,27 +1,85 @@
 import FpVerif.Model.SliceHeap
+import FpVerif.Lemmas.SliceHeap
 /-!
-# C04 (Seq part) — persistence of fp.Seq values at the level of backing arrays
+# C04 (slice part) — persistence of fp.Seq values at the level of backing arrays
 
-No operation writes to an array that existed before it: every earlier value — including slices with
-spare capacity and sub-slices sharing a backing array — shows the same contents forever, along every
-branching history.
+The model (Model/SliceHeap.lean) writes the library functions as programs over Go's `make` / `append` / `s[i] = x`,
+where `append` DOES write in place when the capacity suffices.  Proved here, for every modelled operation
+(fp.Seq's methods, package seq incl. FlatMap / Flatten / Ap / Map2 / FilterMap / Concat / Of / Pure, the
+MergeSeq / MergeSlice monoids and Reduce over them, Iterator.ToSeq, Option.ToSeq), all slices, all heaps:
+
+* `frame_step`   — no array that existed before the call is written, over its full capacity;
+* `persistent`   — hence every earlier value (incl. slices with spare capacity and sub-slices sharing an array)
+                   shows the same elements forever, along every branching history;
+* `fresh_results`, `fresh_disjoint` — the result of a non-aliasing operation lives in an array allocated by the
+                   call: it shares storage with NO existing value;
+* `alias_is_window` — an aliasing result is nil or a window of the receiver (inside its length);
+* `mergeSeqBad_writes` — the discipline is not vacuous: `Combine` written as `append(a, b...)` does write.
 -/
 namespace FpVerif.Spec.C04
 open FpVerif FpVerif.SliceHeap
 
-/-- frame: the old arrays are untouched by any single operation … -/
-theorem frame_step (h : Heap) (s : Slice) (op : Op) (a : Nat) (ha : a < h.length) :
-    (heapAfter h (apply h s op))[a]? = h[a]? := by
-  unfold heapAfter
-  split <;> simp [List.getElem?_append_left, ha]
+/-- every program of the library model obeys the ownership discipline -/
+theorem prog_safe (s : Slice) (op : Op) (p : Step) (hp : prog s op = some p) : Safe p := by
+  cases op <;> simp only [prog] at hp
+  all_goals first
+    | (cases hp; done)
+    | (split at hp <;> first | (cases hp; done) | skip)
+    | skip
+  all_goals (try cases hp)
+  all_goals first
+    | (rename_i o; cases o <;> simp at hp; subst hp; exact safe_litA _)
+    | exact safe_concatInto _ _ _
+    | exact safe_litA _
+    | exact safe_seq (safe_mkA _ _) (safe_iter _ (fun _ => safe_cond _ (safe_appA _) safe_skip))
+    | exact safe_seq (safe_mkA _ _) (safe_iter _ (fun _ => safe_cond _ safe_skip (safe_appA _)))
+    | exact safe_seq (safe_mkA _ _) (safe_iter _ (fun _ => safe_appA _))
+    | exact safe_seq (safe_mkA _ _) (safe_iter _ (fun _ => safe_setA _ _))
+    | exact safe_seq (safe_mkA _ _) (safe_seq (safe_setA _ _) (safe_setA _ _))
+    | exact safe_seq (safe_mkA _ _) (safe_seq (safe_setA _ _) (safe_iter _ (fun _ => safe_setA _ _)))
+    | exact safe_seq (safe_litA _) (safe_seq (safe_litB _) (safe_iter _ (fun _ => safe_cond _ (safe_appA _) (safe_appB _))))
+    | exact safe_seq (safe_litA _) (safe_iter _ (fun _ => safe_appA _))
+    | exact safe_seq (safe_mkA _ _) (safe_iter _ (fun _ => safe_seq (safe_mapIntoB _ _) (safe_appA _)))
+    | exact safe_flatMapWith _ (fun _ => safe_mapIntoB _ _)
+    | exact safe_seq (safe_mkA _ _) (safe_iter _ (fun _ => safe_cond _ (safe_seq (safe_litB _) (safe_appA _)) safe_skip))
+    | exact safe_seq (safe_litB _) (safe_seq (safe_mkA _ _) (safe_seq (safe_setA _ _) (safe_iter _ (fun _ => safe_setA _ _))))
+    | exact safe_seq safe_nilA (safe_iter _ (fun _ => safe_cond _
+        (safe_dep (fun _ => safe_seq (safe_mkB _ _) (safe_seq (safe_setB _ _) (safe_seq (safe_setB _ _) safe_moveBA)))) safe_skip))
 
-theorem heap_grows (h : Heap) (s : Slice) (op : Op) : h.length ≤ (heapAfter h (apply h s op)).length := by
-  unfold heapAfter; split <;> simp
+/-- the state a call starts in satisfies the invariant relative to its own heap -/
+theorem inv_init (h : Heap) : Inv h.length h { heap := h, a := Slice.nil, b := Slice.nil } :=
+  ⟨Nat.le_refl _, fun _ _ => rfl, own_nil _, own_nil _, inHeap_nil _, inHeap_nil _⟩
+
+/-- the final state of a call -/
+def finalSt (h : Heap) (s : Slice) (op : Op) : St :=
+  match prog s op with
+  | some p => p { heap := h, a := Slice.nil, b := Slice.nil }
+  | none => { heap := h, a := Slice.nil, b := Slice.nil }
+
+theorem exec_heap (h : Heap) (s : Slice) (op : Op) : (exec h s op).2 = (finalSt h s op).heap := by
+  unfold exec finalSt
+  cases prog s op <;> cases resOf s op <;> rfl
+
+theorem inv_final (h : Heap) (s : Slice) (op : Op) : Inv h.length h (finalSt h s op) := by
+  unfold finalSt
+  cases hp : prog s op with
+  | none => exact inv_init h
+  | some p => exact prog_safe s op p hp _ _ _ (inv_init h)
+
+/-- **Frame**: no operation writes to an array that existed before it (over the array's full capacity) … -/
+theorem frame_step (h : Heap) (s : Slice) (op : Op) (a : Nat) (ha : a < h.length) :
+    (exec h s op).2[a]? = h[a]? := by
+  rw [exec_heap]
+  exact (inv_final h s op).old a ha
+
+theorem heap_grows (h : Heap) (s : Slice) (op : Op) : h.length ≤ (exec h s op).2.length := by
+  rw [exec_heap]
+  exact (inv_final h s op).len
 
 /-- … hence every slice into an old array shows the same elements after the operation -/
 theorem view_stable (h : Heap) (s : Slice) (op : Op) (x : Slice)
     (hx : ∀ a, x.arr = some a → a < h.length) :
-    view (heapAfter h (apply h s op)) x = view h x := by
+    view (exec h s op).2 x = view h x := by
   unfold view
   cases hxa : x.arr with
   | none => rfl
@@ -30,28 +88,90 @@ theorem view_stable (h : Heap) (s : Slice) (op : Op) (x : Slice)
     have := frame_step h s op a ha
     simp only [List.getD_eq_getElem?_getD, this]
 
+/-- the results of a non-aliasing operation are the registers of its program -/
+theorem results_eq (h : Heap) (s : Slice) (op : Op) :
+    (exec h s op).1 = match resOf s op with
+      | .alias t => [t]
+      | .regA => [(finalSt h s op).a]
+      | .regAB => [(finalSt h s op).a, (finalSt h s op).b]
+      | .none => [] := by
+  unfold exec finalSt
+  cases prog s op <;> cases resOf s op <;> rfl
+
+/-- **Freshness**: a result that is not an alias lives in an array allocated by the call itself … -/
+theorem fresh_results (h : Heap) (s : Slice) (op : Op) (hna : ∀ t, resOf s op ≠ .alias t) :
+    ∀ x ∈ (exec h s op).1, ∀ a, x.arr = some a → h.length ≤ a := by
+  intro x hx a hxa
+  rw [results_eq] at hx
+  have inv := inv_final h s op
+  cases hr : resOf s op with
+  | alias t => exact absurd hr (hna t)
+  | regA => simp only [hr, List.mem_singleton] at hx; subst hx; exact inv.ownA a hxa
+  | regAB =>
+    simp only [hr, List.mem_cons, List.mem_nil_iff, or_false] at hx
+    rcases hx with rfl | rfl
+    · exact inv.ownA a hxa
+    · exact inv.ownB a hxa
+  | none => simp [hr] at hx
+
+/-- … so it shares its array with NO value that existed before the call -/
+theorem fresh_disjoint (h : Heap) (s : Slice) (op : Op) (hna : ∀ t, resOf s op ≠ .alias t)
+    (y : Slice) (hy : ∀ b, y.arr = some b → b < h.length) :
+    ∀ x ∈ (exec h s op).1, ∀ a, x.arr = some a → y.arr ≠ some a := by
+  intro x hx a hxa hya
+  have := fresh_results h s op hna x hx a hxa
+  have := hy a hya
+  omega
+
+/-- an aliasing result is nil, or a window of the receiver inside its length (the receiver itself for
+    Widen / Of / a no-op Take / Append / Concat / Combine of nothing) -/
+theorem alias_is_window (s : Slice) (op : Op) (t : Slice) (hr : resOf s op = .alias t) :
+    t = Slice.nil ∨ (t.arr = s.arr ∧ s.off ≤ t.off ∧ t.off + t.len ≤ s.off + s.len) ∨ t = s := by
+  cases op <;> simp only [resOf] at hr
+  all_goals (try split at hr)
+  all_goals first
+    | (cases hr; done)
+    | (cases hr; right; right; rfl)
+    | (cases hr; left; rfl)
+    | (cases hr; right; left; simp; omega)
+    | (cases hr; right; left; simp)
+
+/-- … and its capacity stays inside the receiver's capacity (for a receiver with `len ≤ cap`, as every Go slice) -/
+theorem alias_cap_within (s : Slice) (op : Op) (t : Slice) (hr : resOf s op = .alias t) (hcap : s.len ≤ s.cap) :
+    t = Slice.nil ∨ (t.off + t.cap ≤ s.off + s.cap ∧ t.len ≤ t.cap) := by
+  cases op <;> simp only [resOf] at hr
+  all_goals (try split at hr)
+  all_goals first
+    | (cases hr; done)
+    | (cases hr; left; rfl)
+    | (cases hr; right; simp; omega)
+    | (cases hr; right; simp)
+
 /-- well-formed world: every live slice points into the heap -/
 def WF (w : World) : Prop := ∀ x ∈ w.live, ∀ a, x.arr = some a → a < w.heap.length
 
 theorem results_wf (h : Heap) (s : Slice) (op : Op) (hs : ∀ a, s.arr = some a → a < h.length) :
-    ∀ x ∈ results h (apply h s op), ∀ a, x.arr = some a → a < (heapAfter h (apply h s op)).length := by
+    ∀ x ∈ (exec h s op).1, ∀ a, x.arr = some a → a < (exec h s op).2.length := by
   intro x hx a hxa
-  cases hr : apply h s op with
+  have inv := inv_final h s op
+  rw [exec_heap]
+  rw [results_eq] at hx
+  cases hr : resOf s op with
   | alias t =>
-    -- an aliasing result is nil or a window into the receiver's (or the argument's) array
-    simp only [hr, results, List.mem_singleton] at hx
+    simp only [hr, List.mem_singleton] at hx
     subst hx
-    simp only [heapAfter]
-    cases op <;> simp only [apply] at hr
-    all_goals (try split at hr)
-    all_goals (first | (cases hr; done) | (cases hr; simp_all [Slice.nil]))
-  | fresh xs =>
-    simp only [hr, results, List.mem_singleton] at hx
-    subst hx; simp at hxa; subst hxa; simp [heapAfter]
-  | fresh2 xs ys =>
-    simp only [hr, results, List.mem_cons, List.mem_nil_iff, or_false] at hx
-    rcases hx with rfl | rfl <;> simp at hxa <;> subst hxa <;> simp [heapAfter]
-  | none => simp [hr, results] at hx
+    have hgrow : h.length ≤ (finalSt h s op).heap.length := inv.len
+    rcases alias_is_window s op x hr with hnil | ⟨harr, _⟩ | heq
+    · subst hnil; simp [Slice.nil] at hxa
+    · exact Nat.lt_of_lt_of_le (hs a (harr ▸ hxa)) hgrow
+    · subst heq; exact Nat.lt_of_lt_of_le (hs a hxa) hgrow
+  | regA => simp only [hr, List.mem_singleton] at hx; subst hx; exact inv.inA a hxa
+  | regAB =>
+    simp only [hr, List.mem_cons, List.mem_nil_iff, or_false] at hx
+    rcases hx with rfl | rfl
+    · exact inv.inA a hxa
+    · exact inv.inB a hxa
+  | none => simp [hr] at hx
 
 theorem wf_step (w : World) (i : Nat) (op : Op) (hw : WF w) : WF (stepW w i op) := by
   intro x hx a hxa
@@ -82,11 +202,23 @@ theorem persistent (w : World) (hw : WF w) (ops : List (Nat × Op)) (x : Slice) 
     rw [h1]
     exact view_stable w.heap _ io.2 x (hw x hx)
 
+/-- … and not only what it SHOWS: the whole backing array, spare capacity included, stays as it was -/
+theorem arrays_persistent (w : World) (hw : WF w) (ops : List (Nat × Op)) (a : Nat) (ha : a < w.heap.length) :
+    (runW w ops).heap[a]? = w.heap[a]? := by
+  induction ops generalizing w with
+  | nil => rfl
+  | cons io ops ih =>
+    have hw' := wf_step w io.1 io.2 hw
+    have hlen : w.heap.length ≤ (stepW w io.1 io.2).heap.length := heap_grows _ _ _
+    show (runW (stepW w io.1 io.2) ops).heap[a]? = _
+    rw [ih (stepW w io.1 io.2) hw' (Nat.lt_of_lt_of_le ha hlen)]
+    exact frame_step w.heap _ io.2 a ha
+
 /-- value-level meaning of the aliasing operations (they show the right elements) -/
 theorem view_take (h : Heap) (s : Slice) (n : Nat) (a : Nat) (hs : s.arr = some a) :
-    ∀ t, apply h s (.take n) = .alias t → view h t = (view h s).take n := by
+    ∀ t, resOf s (.take n) = .alias t → view h t = (view h s).take n := by
   intro t ht
-  simp only [apply] at ht
+  simp only [resOf] at ht
   split at ht
   · cases ht
     rename_i hlt
@@ -97,16 +229,41 @@ theorem view_take (h : Heap) (s : Slice) (n : Nat) (a : Nat) (hs : s.arr = some 
     simp [view, hs, List.take_take, Nat.min_eq_left (Nat.le_of_not_lt hge)]
 
 theorem view_drop (h : Heap) (s : Slice) (n : Nat) (a : Nat) (hs : s.arr = some a) (hn : n ≤ s.len) :
-    ∀ t, apply h s (.drop n) = .alias t → view h t = (view h s).drop n := by
+    ∀ t, resOf s (.drop n) = .alias t → view h t = (view h s).drop n := by
   intro t ht
-  simp only [apply, Nat.not_lt.mpr hn, if_false] at ht
+  simp only [resOf, Nat.not_lt.mpr hn, if_false] at ht
   cases ht
   simp [view, hs, List.drop_take, List.drop_drop, Nat.add_comm]
 
-/-- Sort returns a sorted permutation in a FRESH array (the receiver's array is not the result's). -/
+/-- Sort, Reverse, Distinct, Append/Concat (of something), FlatMap, Flatten, Ap, Map2, FilterMap, MergeSeq.Combine
+    (of something), Iterator.ToSeq … return FRESH storage -/
 theorem sort_fresh (h : Heap) (s : Slice) (lt : Int → Int → Bool) :
-    ∃ xs, apply h s (.sort lt) = .fresh xs ∧ xs.Perm (view h s) := by
-  exact ⟨_, rfl, List.mergeSort_perm _ _⟩
+    ∀ x ∈ (exec h s (.sort lt)).1, ∀ a, x.arr = some a → h.length ≤ a :=
+  fresh_results h s _ (by intro t; simp [resOf])
+
+theorem flatMap_fresh (h : Heap) (s : Slice) (mf : Int → Slice) :
+    ∀ x ∈ (exec h s (.flatMapPkg mf)).1, ∀ a, x.arr = some a → h.length ≤ a :=
+  fresh_results h s _ (by intro t; simp [resOf])
+
+theorem mergeCombine_fresh (h : Heap) (s t : Slice) (ht : t.len > 0) :
+    ∀ x ∈ (exec h s (.mergeCombine t)).1, ∀ a, x.arr = some a → h.length ≤ a :=
+  fresh_results h s _ (by intro u; simp [resOf, ht])
+
+/-- the discipline is not vacuous: Go's `append` does write into the spare capacity of its first argument;
+    `Combine` written as `append(a, b...)` changes the array that `a` — and every other window — lives in -/
+theorem mergeSeqBad_writes :
+    let h : Heap := [[1, 2, 3, 4, 5]]
+    let a : Slice := { arr := some 0, off := 0, len := 2, cap := 5 }
+    let b : Slice := { arr := some 0, off := 3, len := 2, cap := 2 }
+    (mergeSeqBad h a b).2[0]? ≠ h[0]? := by decide
+
+/-- … whereas the library's Combine on the same operands leaves it alone and returns a new array -/
+example :
+    let h : Heap := [[1, 2, 3, 4, 5]]
+    let a : Slice := { arr := some 0, off := 0, len := 2, cap := 5 }
+    let b : Slice := { arr := some 0, off := 3, len := 2, cap := 2 }
+    (exec h a (.mergeCombine b)).2[0]? = h[0]? ∧ view (exec h a (.mergeCombine b)).2 ((exec h a (.mergeCombine b)).1.getD 0 Slice.nil) = [1, 2, 4, 5] := by
+  decide
 
 /-- non-vacuity: a world with a slice with spare capacity and a sub-slice of the same array -/
 example : WF { heap := [[1, 2, 3, 4, 5]],
